@@ -3,7 +3,7 @@ from common import COMMON_TB
 PROP = {
     "bin": "c01",
     "prop_file": "Properties/C01.v",
-    "model_files": ["Storage/Crash.v", "Storage/CrashProofs.v"],
+    "model_files": ["Storage/Crash.v", "Storage/CrashProofs.v", "Storage/Proto.v", "Storage/ProtoProofs.v"],
     "level": "proof",
     "engine": "E1-storage",
     "harness_timeout": 1500,
@@ -15,8 +15,12 @@ PROP = {
                   "Tie: every storage trace the real IndexWriter produces on a VerifDirectory (1-3 indexing threads, merges by policy and explicit, rollbacks, "
                   "GC, writer restarts) is fed through the monitor inside Coq. Spec layer on the implementation: crash images materialised at sampled crash "
                   "points x outcomes are opened by the real Index::open, validate_checksum'd, fully read (ids must be those of an allowed commit), then a new "
-                  "writer commits and garbage-collects. Partial: the protocol model proving that EVERY history emits an accepted trace (C01_all_histories of "
-                  "DESIGN) is not built; the quantifier over histories is covered by the monitor on the generated traces only.",
+                  "writer commits and garbage-collects. C01_all_histories: a protocol model of the writer (segment finalisation by workers, advance_deletes, save_metas = "
+                  "sync / atomic write / sync with both syncs pinned from the source, schedule_commit, merges whose file creations interleave anywhere and end_merge on "
+                  "the updater thread, garbage collection against the living set, rollback, reopen; explicit scheduler oracle) is proved to emit only accepted traces for "
+                  "EVERY operation list and schedule, hence C01_all_histories_crash_safe; four unsafe protocol variants are refuted by witnesses. Partial: resumability "
+                  "(a recovered image re-establishes the protocol invariant) is observed on the implementation, not proved; the protocol trace is not compared "
+                  "event-by-event with observed traces (observed traces go through the monitor).",
     "level_note": "Trusted: Coq kernel + vm_compute; the VerifDirectory log faithfully records the operations tantivy issues through the Directory trait; the "
                   "persistence model itself (POSIX-like: un-synced directory operations independently lost or kept, fsynced data intact) and that the OS honours "
                   "fsync/rename as modelled; meta.json (de)serialisation (the harness parses the referenced files out of the JSON and cross-checks them against "
